@@ -177,6 +177,62 @@ func c05PreludeScenarios() (scs []c05Scenario) {
 			"||nul\x00.example^", "||ünicöde.example^", "||xn--nicde-lua2b.example^", "! comment", "# comment", "[Adblock Plus 2.0]", " ", ""),
 	)
 
+	// --- round 9: answers SYNTHESISED from rule text.  A $dnsrewrite rule carries
+	// the value of the record it answers with (address, name, preference, text,
+	// SVCB parameters) as text; the probe of each rule is a query of the rule's
+	// OWN record type, so the answer built from that text is what goes through
+	// the wire check.  Values: well-formed, wrong address family, mapped
+	// addresses, out of range numbers, empty / over-long strings, names that are
+	// no domain names, unknown and repeated parameters.
+	{
+		l64 := strings.Repeat("l", 64)
+		type rv struct {
+			qt   uint16
+			name string
+			vals []string
+		}
+		hint := []string{"127.0.0.1", "::1", "::ffff:1.2.3.4", "2001:db8::1", "1.2.3", "01.2.3.4", "256.1.1.1", "fe80::1%eth0", "", ":::", "1.2.3.4,5.6.7.8", "\"1.2.3.4\""}
+		var svcb []string
+		for _, pfx := range []string{"1 . ", "2 svc.dv.example ", "1 svc.dv.example. "} {
+			for _, h := range hint {
+				svcb = append(svcb, pfx+"ipv4hint="+h, pfx+"ipv6hint="+h, pfx+"alpn=h3 ipv4hint="+h+" ipv6hint="+h)
+			}
+		}
+		svcb = append(svcb, "1 .", "0 alias.dv.example", "0 .", "65535 .", "65536 .", "-1 .", "x .", "1", "", "1 a..b alpn=h3", "1 "+l64+".example alpn=h3", "1 "+longName+"."+longName+" alpn=h3",
+			"1 . alpn=", "1 . alpn=h2", "1 . alpn=h2,h3", "1 . alpn="+strings.Repeat("a", 255), "1 . alpn="+strings.Repeat("a", 256), "1 . alpn=h2 alpn=h3",
+			"1 . port=443", "1 . port=0", "1 . port=65535", "1 . port=65536", "1 . port=-1", "1 . port=", "1 . port=x",
+			"1 . ech=AQIDBA==", "1 . ech=", "1 . ech=!!!", "1 . ech="+strings.Repeat("QUJD", 20000), "1 . echconfig=AQIDBA==", "1 . echconfig=?",
+			"1 . mandatory=alpn", "1 . mandatory=alpn alpn=h3", "1 . mandatory=nosuch", "1 . mandatory=mandatory", "1 . mandatory=", "1 . mandatory=port",
+			"1 . no-default-alpn", "1 . no-default-alpn=x", "1 . no-default-alpn alpn=h3", "1 . dohpath=/dns-query{?dns}", "1 . dohpath=", "1 . dohpath="+strings.Repeat("p", 70000),
+			"1 . unknown=1", "1 . key65280=x", "1 . =x", "1 . =", "1 . alpn", "1 . ipv4hint", "1 . ALPN=h3", "1 . alpn=h3 port=443 ipv4hint=127.0.0.1 ipv6hint=::1 ech=AQ== mandatory=alpn dohpath=/q")
+		kinds := []rv{
+			{dns.TypeA, "A", []string{"1.2.3.4", "::1", "::ffff:1.2.3.4", "1.2.3", "01.2.3.4", "256.1.1.1", "", "0.0.0.0", "1.2.3.4 5.6.7.8", "x"}},
+			{dns.TypeAAAA, "AAAA", []string{"::1", "1.2.3.4", "::ffff:1.2.3.4", "2001:db8::1", "fe80::1%eth0", "", ":::", "::", "x"}},
+			{dns.TypeCNAME, "CNAME", []string{"t.dv.example", "t.dv.example.", "a..b", l64 + ".example", "", ".", "-", "sp ace.example", longName + "." + longName, "ünï.example", "1.2.3.4"}},
+			{dns.TypePTR, "PTR", []string{"h.dv.example.", "h.dv.example", "a..b.", l64 + ".example.", "", ".", longName + "." + longName + ".", "sp ace.example.", "ünï.example."}},
+			{dns.TypeMX, "MX", []string{"10 mail.dv.example", "0 .", "65535 m.example", "65536 m.example", "-1 m.example", "10", "10 ", " m.example", "x m.example", "10 a..b", "10 " + l64 + ".example", "10 " + longName + "." + longName, "10 m.example extra", ""}},
+			{dns.TypeTXT, "TXT", []string{"hello", "", strings.Repeat("t", 255), strings.Repeat("t", 256), strings.Repeat("t", 70000), "quo\"te", "back\\slash", "ünï", "a b  c", "nul\x00"}},
+			{dns.TypeSRV, "SRV", []string{"30 60 8080 srv.dv.example", "0 0 0 .", "65535 65535 65535 s.example", "65536 0 0 s.example", "0 65536 0 s.example", "0 0 65536 s.example", "-1 0 0 s.example",
+				"1 2 3", "1 2", "1", "", "x y z s.example", "1 2 3 a..b", "1 2 3 " + l64 + ".example", "1 2 3 " + longName + "." + longName, "1 2 3 s.example extra"}},
+			{dns.TypeHTTPS, "HTTPS", svcb},
+			{dns.TypeSVCB, "SVCB", svcb},
+		}
+		for _, k := range kinds {
+			var rs []string
+			sc := c05Scenario{label: "rules/dnsrewrite-values/" + k.name}
+			for i, v := range k.vals {
+				h := fmt.Sprintf("v%d.%s.dv.example", i, strings.ToLower(k.name))
+				rs = append(rs, "|"+h+"^$dnsrewrite=NOERROR;"+k.name+";"+v)
+				sc.probes = append(sc.probes, c05Q(h, k.qt))
+			}
+			// the other record types of the same hosts, once
+			sc.probes = append(sc.probes, c05Q("v0."+strings.ToLower(k.name)+".dv.example", dns.TypeA), c05Q("v1."+strings.ToLower(k.name)+".dv.example", dns.TypeAAAA),
+				c05Q("v0."+strings.ToLower(k.name)+".dv.example", dns.TypeHTTPS))
+			sc.ops = []c05Op{c05HTTP("POST", "/control/filtering/set_rules", c05J(map[string]any{"rules": rs}))}
+			scs = append(scs, sc)
+		}
+	}
+
 	// --- blocked services: unknown ids, duplicates, hostile schedules
 	bs := func(label, method, url, body string) c05Scenario {
 		return c05Scenario{label: "blocked-services/" + label, ops: []c05Op{c05HTTP(method, url, body)},
